@@ -257,7 +257,7 @@ func closureT1(args []string) error {
 		for g := 0; g < 420; g++ {
 			name := fmt.Sprintf("g%03d", g)
 			t := []indep.Tok{num(int64(g % 50)), num(int64(400 + g)), cmd("hsbw"), num(10), num(10), cmd("rmoveto")}
-			for s := 0; s < 24; s++ {
+			for s := 0; s < 44; s++ {
 				t = append(t, num(int64(100+s*7+g)), num(int64(-90+s*5)), cmd("rlineto"))
 			}
 			t = append(t, cmd("closepath"), cmd("endchar"))
